@@ -583,9 +583,20 @@ class CFG:
                             val = self.eval3(sn.ast.value, dict(a2), s) if isinstance(sn.ast.value, (ast.BoolOp, ast.UnaryOp, ast.Name, ast.Constant)) else None
                             if isinstance(sn.ast.value, ast.Constant) and not isinstance(sn.ast.value.value, bool):
                                 val = None
+                        extra = []
+                        if sn.kind == "stmt" and isinstance(sn.ast, ast.Assign) and len(sn.ast.targets) == 1 and isinstance(sn.ast.targets[0], (ast.Tuple, ast.List)) \
+                                and isinstance(sn.ast.value, (ast.Tuple, ast.List)) and len(sn.ast.value.elts) == len(sn.ast.targets[0].elts):
+                            # element-wise copies `a, b = (c, d)` (also produced by helper expansion) carry the truth values along
+                            for t_, v_ in zip(sn.ast.targets[0].elts, sn.ast.value.elts):
+                                if isinstance(t_, ast.Name) and isinstance(v_, (ast.BoolOp, ast.UnaryOp, ast.Name)):
+                                    ev = self.eval3(v_, dict(a2), s)
+                                    if ev is not None:
+                                        extra.append((t_.id, ev))
                         a2 = frozenset((k, v) for k, v in a2 if not (killed & _idents(k)))
                         if val is not None:
                             a2 = a2 | {(sn.ast.targets[0].id, val)}
+                        if extra:
+                            a2 = a2 | frozenset(extra)
                 st = (s, a2)
                 if st in seen:
                     continue
